@@ -82,6 +82,24 @@ Theorem C09_no_deferred_value_left : forall fuel S D op inputs root or tor d s,
 Proof. exact request_no_deferred. Qed.
 Print Assumptions C09_no_deferred_value_left.
 
+
+(* ---- the pass that forces deferred values cannot lose the data: whatever the
+        executor builds has its deferred values at nullable positions, so data is
+        absent only because a non-null failure reached the root during execution ---- *)
+Theorem C09_dethunk_never_raises : forall fuel E obj src g p s fs s1 e s2,
+  exec_groups fuel E obj src g p s = XOk fs s1 ->
+  dethunk fuel E (QObj fs) s1 <> XRaise e s2.
+Proof. exact request_dethunk_never_raises. Qed.
+Print Assumptions C09_dethunk_never_raises.
+
+(* ---- fuel is only a termination device: once a request ends, more fuel gives
+        the same answer (so "the request terminates" has one meaning) ---- *)
+Theorem C09_request_fuel_irrelevant : forall fuel fuel' S D op inputs root or tor r,
+  request fuel S D op inputs root or tor = r -> r <> RFuel -> fuel <= fuel' ->
+  request fuel' S D op inputs root or tor = r.
+Proof. intros; eapply request_fuel_mono; eauto. Qed.
+Print Assumptions C09_request_fuel_irrelevant.
+
 (* ---- non-vacuity ---- *)
 Definition c09_fld (id : N) (nm : string) (sub : list selection) : selection := SField id None nm [] [] sub.
 Definition c09_doc (sels : list selection) (frs : list fragment) : document :=
